@@ -30,6 +30,7 @@ Fails(e) ==
      (IF e.image # ImageOf(e.kind, e.m) THEN {"infra-image-mismatch"} ELSE {})
      \cup (IF ~e.stable THEN {"encoding-differs-between-repetitions"} ELSE {})
      \cup (IF e.out2 # e.out THEN {"encoding-differs-between-processes"} ELSE {})
+     \cup (IF ~e.outstable THEN {"returned-bytes-changed-by-a-later-encoding"} ELSE {})
      \cup (IF ~DetOut(e.kind, e.out) THEN {"not-deterministic-cbor"} ELSE {})
      \cup (IF e.out # e.image THEN {"not-the-canonical-image"} ELSE {})
      \cup (IF e.outdec # "ok" THEN {"own-output-not-decodable"}
